@@ -159,7 +159,10 @@ CONTRACTS = [
                       "implies(instance(self, RunExperiment) or instance(self, RunCommand) or instance(self, Combine), result is not None)"],
              trusted_reason="dynamic dispatch of get_output_path: only Group has no output directory (verified per class in contracts/run_types.py); within one planning pass the answer for "
                             "a task is stable (memoised selected version): bounded check C07.planner.deps_snapshot"),
-    Contract("task_types/base.py::TaskType.get_working_path", params={"ctx": "Context"}, returns="Val[Path]", extern=True, trusted_reason="project_root / identifier.path"),
+    Contract("ext::TaskType.get_working_path(planner)", params={"ctx": "Context"}, returns="Val[Path]", trusted_reason="verified below: project_root / identifier.path"),
+    Contract("ext::pathlib.Path(Path,Path)", params={"a": "Val[Path]", "b": "Val[Path]"}, returns="Val[Path]", ensures=["result == Path_joinp(a, b)"], trusted_reason="pathlib.Path(a, b)"),
+    Contract("task_types/base.py::TaskType.get_working_path", params={"ctx": "Context"}, returns="Val[Path]", props=["C07", "C17"],
+             ensures=[C("the_directory_of_the_cond_file_below_the_project_root", "result == Path_joinp(ctx._project_root, self._identifier._path)", "C07", "C17")]),
     Contract("ext::TaskType.get_deps_output_paths(planner)", params={"ctx": "Context"}, returns="Seq[Val[Path]]",
              modifies=["RunExperiment._did_retrieve_version", "RunExperiment._most_relevant_version"], raises={"RuntimeError": []},
              trusted_reason="output directories of the direct dependencies (snapshot consistency: bounded check C07.planner.deps_snapshot)"),
@@ -213,6 +216,8 @@ CONTRACTS = [
              prefer_ext={"TaskIndex.get_task": "TaskIndex.get_task(planner)", "TaskType.should_run": "TaskType.should_run(planner)",
                          "RunExperiment.create_new_version": "RunExperiment.create_new_version(planner)",
                          "TaskType.get_output_path": "TaskType.get_output_path(planner)", "RunExperiment.get_output_path": "TaskType.get_output_path(planner)",
+                         "TaskType.get_working_path": "TaskType.get_working_path(planner)", "RunExperiment.get_working_path": "TaskType.get_working_path(planner)",
+                         "RunCommand.get_working_path": "TaskType.get_working_path(planner)", "_RunSubprocess.get_working_path": "TaskType.get_working_path(planner)",
                          "TaskType.get_deps_output_paths": "TaskType.get_deps_output_paths(planner)", "RunExperiment.get_deps_output_paths": "TaskType.get_deps_output_paths(planner)",
                          "RunCommand.get_deps_output_paths": "TaskType.get_deps_output_paths(planner)", "_RunSubprocess.get_deps_output_paths": "TaskType.get_deps_output_paths(planner)"},
              locals={"all_ops": "List[Operation]#allops", "initial_operations": "List[Operation]#initops", "cached_tasks": "List[TaskType]#cached",
